@@ -123,6 +123,15 @@ def make_project_repo_class(G, components_locations=None, name="FakeProjectRepo"
                 nums.append(None)
             return G.BuildNumData(*nums[:3])
 
+        @classmethod
+        def parse_buildtag(cls, tag_str):
+            """the documented hook: this project also knows build tags of the form ok/<branch>/<n>"""
+            import re
+            m = re.match(r"ok/(?P<branch>.*)/(?P<build>\d+)$", tag_str)
+            if m:
+                return G.BuildNumData(None, None, None, build=int(m.group("build")), branch_str=m.group("branch"))
+            return super().parse_buildtag(tag_str)
+
         def read_components_from_file(self, v_file_path, blob):
             out = {}
             for line in blob.data_stream.read().decode().split("\n"):
